@@ -273,18 +273,146 @@ def gen_streams(tier):
     return streams
 
 
-def run_cli(prop, tier):
+def gen_twin_streams(tier):
+    """C17 through the command-line tool: pairs (stream without, stream with) lines that are rejected or
+    unfragmented; what is printed for every other line must be the same in both.  Returns a list of
+    (bytes_without, bytes_with, set of markers of the removable lines)."""
+    rnd = rng("clitwin")
+    tb = T.tables()
+    thorough = tier == "thorough"
+    out = []
+    for si in range(1500 if thorough else 120):
+        ctr = [0]
+
+        def nxt():
+            ctr[0] += 1
+            return ctr[0]
+
+        def single():
+            buf = F.rand_message(tb, rnd)
+            pay, fill = nmea.armor(buf.bytes(), buf.n)
+            return nmea.line(tag=marker(nxt()), payload=pay, fill=fill, chan=rnd.choice([b"A", b"B"]))
+
+        def group():
+            buf = F.rand_message(tb, rnd)
+            pay, fill = nmea.armor(buf.bytes(), buf.n)
+            n = min(rnd.randrange(2, 6), len(pay))
+            cuts = F.split_points(rnd, len(pay), n)
+            sid = rnd.choice([None, 1, 7])
+            return [nmea.line(tag=marker(nxt()), n=n, k=k, sid=sid, payload=pay[cuts[k - 1]:cuts[k]], fill=fill if k == n else 0)
+                    for k in range(1, n + 1)]
+
+        def removable():
+            k = rnd.randrange(9)
+            i = nxt()
+            if k == 0:
+                return b"noise " + marker(i) + b" " + F.field_bytes(rnd, rnd.randrange(0, 30)).replace(b"\n", b" ")
+            if k == 1:
+                kw = dict(payload=F.rand_armor(rnd, rnd.randrange(1, 30)))
+                return nmea.line(tag=marker(i), ck=nmea.xor(nmea.body(**kw)) ^ 0x40, **kw)
+            if k == 2:      # out of sequence: no group of these streams uses id 9
+                return nmea.line(tag=marker(i), n=3, k=rnd.choice([2, 3]), sid=9, payload=F.rand_armor(rnd, 5))
+            if k == 3:
+                return nmea.line(tag=marker(i), payload=b"0" + F.rand_armor(rnd, 10))      # unfragmented, does not decode
+            if k == 4:
+                return b"$GPGGA," + marker(i) + b",123519,4807.038,N"
+            if k == 5:
+                return b"\xff\xfe " + marker(i) + b" \xc3\x28"                           # not UTF-8
+            if k == 6:
+                return nmea.line(tag=marker(i), payload=b"", fill=0)
+            if k == 7:
+                return marker(i) + b"\r"
+            return single_with(i)
+
+        def single_with(i):
+            buf = F.rand_message(tb, rnd)
+            pay, fill = nmea.armor(buf.bytes(), buf.n)
+            return nmea.line(tag=marker(i), payload=pay, fill=fill)
+
+        kept, rem = [], set()
+        lines = []
+        L = rnd.choice([2, 3, 5, 10, 30])
+        while len(lines) < L:
+            r = rnd.random()
+            if r < 0.5:
+                g = group()
+                for f in g:
+                    while rnd.random() < 0.4:
+                        ln = removable()
+                        rem.add(int(MARK.search(ln).group(1)))
+                        lines.append(ln)
+                    lines.append(f)
+            elif r < 0.7:
+                lines.append(single())
+            else:
+                ln = removable()
+                rem.add(int(MARK.search(ln).group(1)))
+                lines.append(ln)
+        term = rnd.choice([b"\n", b"\n", b"\r\n"])
+        with_ = term.join(lines) + term
+        without = term.join(l for l in lines if int(MARK.search(l).group(1)) not in rem)
+        without += term if without else b""
+        out.append((without, with_, rem))
+    return out
+
+
+def twin_events(pair):
+    """events of both streams; every line of the longer stream that also occurs in the shorter one carries
+    what was printed for it there as `twin`; the lines that were removed are labelled R: (the specification
+    confirms that each of them is one that C17 allows to remove)"""
+    without, with_, rem = pair
+    ea = events_of(without)
+    eb = events_of(with_)
+    seen = {}
+    for e in ea:
+        if e.get("op") == "cli":
+            m = MARK.search(bytes(e["b"]))
+            if m:
+                seen[int(m.group(1))] = e
+    for e in eb:
+        if e.get("op") != "cli":
+            continue
+        m = MARK.search(bytes(e["b"]))
+        if not m:
+            continue
+        k = int(m.group(1))
+        if k in rem:
+            e["tag"] = "R:"
+        elif k in seen:
+            a = seen[k]
+            e["twin"] = dict(out=a["out"], err=a["err"], variant=a["variant"])
+            e["twinprop"] = "C17"
+            e["twinmode"] = "cli"
+            e["twinwhy"] = "rejected and unfragmented lines removed from the stream"
+    return [(without, ea), (with_, eb)]
+
+
+def run_cli_twin(prop, tier):
+    return run_cli(prop, tier, twin=True)
+
+
+def run_cli(prop, tier, twin=False):
     t0 = time.time()
     B.build_cli()
-    streams = gen_streams(tier)
     wdir = ensure(os.path.join(WORK, "cli_%d" % os.getpid()))
     # one trace file per shard of streams (each stream starts with a `new` event)
     shards, cur, n = [], [], 0
     nlines = 0
     samples = []
     exits = {}
-    for s in streams:
-        evs = events_of(s)
+    twin_of = {}
+    if twin:
+        streams = []
+        recorded = []
+        for pair in gen_twin_streams(tier):
+            for s, evs in twin_events(pair):
+                streams.append(s)
+                recorded.append((s, evs))
+                twin_of[s] = pair
+    else:
+        streams = gen_streams(tier)
+        recorded = ((s, events_of(s)) for s in streams)
+    for s, evs in recorded:
         nlines += len(evs) - 2
         exits[evs[-1]["exit"]] = exits.get(evs[-1]["exit"], 0) + 1
         if len(samples) < 2 and 2 < len(evs) < 8:
@@ -318,12 +446,18 @@ def run_cli(prop, tier):
         for s, evs in sh:
             for j, e in enumerate(evs):
                 flat.append((s, e))
+        if res.get("generr", 0) and not res.get("viol"):
+            raise ToolError("stream generator labelled a line removable that the specification does not class as rejected / unfragmented")
         for v in res.get("viol", []):
             s, e = flat[v["i"] - 1]
-            viols.append(dict(prop=v["prop"], all=v["all"], what=v["what"], build="cli", family="cli",
-                              ops=["STDIN " + s.hex()], event=e))
+            ops = ["STDIN " + s.hex()]
+            if s in twin_of:
+                ops = ["STDIN " + twin_of[s][1].hex(), "WITHOUT " + twin_of[s][0].hex(),
+                       "REMOVED " + ",".join(str(m) for m in sorted(twin_of[s][2]))]
+            viols.append(dict(prop=v["prop"], all=v["all"], what=v["what"], build="cli", family="cli-twin" if twin else "cli",
+                              ops=ops, event=e))
     shutil.rmtree(wdir, ignore_errors=True)
-    summary = dict(name="cli", build="std", streams=len(streams), input_lines=nlines, events=events,
+    summary = dict(name="cli-twin" if twin else "cli", build="std", streams=len(streams), input_lines=nlines, events=events,
                    exit_statuses={str(k): v for k, v in exits.items()}, classes=classes,
                    wall_s=round(time.time() - t0, 1))
     return dict(summary=summary, states=states, transitions=events, traces=len(streams), events=events,
